@@ -11,7 +11,7 @@ Definition c04_hist : list (oracle * op) :=
   [ (c04_o_alt, OCompose true (partial_relu 1 0));
     (c04_o_unb, OCompose false (partial_relu 1 0));
     (c04_o_alt, OElim);
-    (c04_o_alt, OTree BAdd (partial_relu 1 0));
+    (c04_o_unb, OTree BAdd (partial_relu 1 0));
     (c04_o_unb, OApply c04_zero);
     (c04_o_unb, OReduce) ].
 Inductive c04_sh := SU | ST | SD (a b : c04_sh).
